@@ -7,6 +7,7 @@ RT_CFG = """
 INIT Init
 NEXT Next
 INVARIANT RoundTrip
+INVARIANT CopyOnlyLost
 INVARIANT Emit
 """
 NULL = '/dev/null'
@@ -37,6 +38,11 @@ def hh(h):
     return {'k': 'hh', 'os': h['os'] + 1 if oc else h['os'], 'oc': oc, 'ns': h['ns'] + 1 if nc else h['ns'], 'nc': nc}
 
 
+def copy_only(fp):
+    """PatchText.IsCopyOnly: a file patch of nothing but its names (built from ignored "copy from/to" lines)"""
+    return not fp['hunks'] and not fp['ren'] and fp['operm'] == 'none' and fp['nperm'] == 'none' and fp['ohash'] == 'none'
+
+
 def input_dialects(fps):
     """token lists that must parse to `fps`"""
     outs = {}
@@ -55,9 +61,11 @@ def input_dialects(fps):
         if fp['ren']:
             t += ([{'k': 'garb'}] if extra else []) + [{'k': 'renfrom'}, {'k': 'rento'}]
         if fp['operm'] != 'none':
-            t.append({'k': 'delmode' if fp['kind'] == 'D' else 'oldmode', 'm': fp['operm']})
+            t.append({'k': 'delmode' if fp['kind'] == 'D' else 'oldmode', 'm': fp['operm'].rjust(6, '0')})
         if fp['nperm'] != 'none':
-            t.append({'k': 'newfilemode' if fp['kind'] == 'C' else 'newmode', 'm': fp['nperm']})
+            t.append({'k': 'newfilemode' if fp['kind'] == 'C' else 'newmode', 'm': fp['nperm'].rjust(6, '0')})
+        if copy_only(fp):
+            t += [{'k': 'copyfrom'}, {'k': 'copyto'}]
         if fp['ohash'] != 'none':
             t.append({'k': 'index', 'o': fp['ohash'], 'n': fp['nhash']})
         if fp['hunks'] or fp['old'] == NULL or fp['new'] == NULL or extra:
@@ -72,7 +80,7 @@ def input_dialects(fps):
         def header_only(fp):
             n = fp['new'] if fp['new'] != NULL else fp['old']
             t = [{'k': 'git', 'o': n, 'n': n}]
-            t.append({'k': 'newfilemode', 'm': fp['nperm']} if fp['kind'] == 'C' else {'k': 'delmode', 'm': fp['operm']})
+            t.append({'k': 'newfilemode', 'm': fp['nperm'].rjust(6, '0')} if fp['kind'] == 'C' else {'k': 'delmode', 'm': fp['operm'].rjust(6, '0')})
             if fp['ohash'] != 'none':
                 t.append({'k': 'index', 'o': fp['ohash'], 'n': fp['nhash']})
             return t
@@ -146,7 +154,7 @@ def check_c12(prop, tier):
                 fps = [rnd.choice(cases)['fps'][0] for _ in range(2 if k % 4 else 3)]
                 pairs.append({'fps': fps})
                 f.write(json.dumps({'id': k, 'fps': fps}) + '\n')
-        st = tlc('Val_Text', cfg_body=RT_CFG.replace('INVARIANT RoundTrip\n', ''), env={'RQ_RECORDS': recs}, tag='val-pairs')
+        st = tlc('Val_Text', cfg_body=RT_CFG.replace('INVARIANT RoundTrip\nINVARIANT CopyOnlyLost\n', ''), env={'RQ_RECORDS': recs}, tag='val-pairs')
         res.add_tlc(st, 'Val_Text/pairs')
         nok = 0
         for v in tlc_json_lines(st['out']):
@@ -195,6 +203,10 @@ def check_c12(prop, tier):
                 res.violation('written-form-rejected', 'the written form of an accepted patch is not accepted: %s' % r.get('status2'), detail)
                 continue
             why = same_c12(r['p1'], r['p2'])
+            if why and any(copy_only(fp) for fp in c['fps']) and not same_c12([x for x, fp in zip(r['p1'], c['fps']) if not copy_only(fp)], r['p2']):
+                # exactly the file patches made of nothing but their names are missing from the re-parsed patch
+                res.violation('copy-only-file-patch-lost', 'parse(write(parse(x))) lacks the file patch that x builds from "copy from"/"copy to" lines alone', detail)
+                continue
             if why:
                 res.violation('reparse-differs:' + why.split(':')[0], 'parse(write(parse(x))) differs from parse(x): ' + why, detail)
                 continue
